@@ -47,6 +47,10 @@ def codec_attrs(an, fn, which):
         if not (isinstance(c.func, ast.Attribute) and c.func.attr == which):
             continue
         recv = c.func.value
+        if isinstance(recv, ast.Name):
+            rs = value_sources(fn, recv, n)
+            if len(rs) == 1 and rs[0][0] == "expr" and isinstance(rs[0][1], ast.Attribute):
+                recv = rs[0][1]        # item_field = self.field
         if isinstance(recv, ast.Attribute) and isinstance(recv.value, ast.Name) and recv.value.id == fn.self_name:
             # element-wise: the converted operand comes from iterating the value parameter
             elementwise = False
@@ -95,9 +99,14 @@ def check_container_items_encoded(ctx):
             srcs = value_sources(f, e, node)
             return bool(srcs) and all(k == "param" and p == vp for k, p in srcs)
 
-        def is_item_field(e):
-            return isinstance(e, ast.Attribute) and e.attr in ("field", "key_field", "value_field", "_use_proxy") and isinstance(e.value, ast.Name) \
-                and e.value.id == f.self_name
+        def is_item_field(e, f=f):
+            if isinstance(e, ast.Attribute) and e.attr in ("field", "key_field", "value_field", "_use_proxy") and isinstance(e.value, ast.Name) \
+                    and e.value.id == f.self_name:
+                return True
+            if isinstance(e, ast.Name):       # item_field = self.field
+                srcs = value_sources(f, e, None)
+                return bool(srcs) and all(k == "expr" and isinstance(pl, ast.Attribute) and is_item_field(pl) for k, pl in srcs)
+            return False
 
         def decide(e, node):
             if is_value(e, node):
@@ -151,9 +160,14 @@ def check_container_items_encoded(ctx):
                 hit = False
                 for e in leaves:
                     for x in ast.walk(e):
-                        if isinstance(x, ast.Call) and isinstance(x.func, ast.Attribute) and x.func.attr == which and isinstance(x.func.value, ast.Attribute) \
-                                and x.func.value.attr == attr and isinstance(x.func.value.value, ast.Name) and x.func.value.value.id == f.self_name:
-                            hit = True
+                        if isinstance(x, ast.Call) and isinstance(x.func, ast.Attribute) and x.func.attr == which:
+                            recv_ = x.func.value
+                            if isinstance(recv_, ast.Name):
+                                rs = value_sources(f, recv_, None)
+                                if len(rs) == 1 and rs[0][0] == "expr" and isinstance(rs[0][1], ast.Attribute):
+                                    recv_ = rs[0][1]        # item_field = self.field
+                            if isinstance(recv_, ast.Attribute) and recv_.attr == attr and isinstance(recv_.value, ast.Name) and recv_.value.id == f.self_name:
+                                hit = True
                         # the codec applied through a local bound to functools.partial(self.<attr>.<which>, cfg)
                         if isinstance(x, ast.Call) and isinstance(x.func, ast.Name):
                             fs = sp.sources(x.func, sp.where.get(id(e)) or r)
